@@ -5,7 +5,7 @@ import os
 import re
 import sys
 
-rnd, letters = sys.argv[1], sys.argv[2]
+rnd, letters = sys.argv[1], (sys.argv[2].split(",") if "," in sys.argv[2] else list(sys.argv[2]))
 for i in range(1, 21):
     p = f"C{i:02d}"
     for x in letters:
@@ -17,7 +17,7 @@ for i in range(1, 21):
         notes = open(np_).read()
         head = notes.strip().splitlines()[0] if notes.strip() else ""
         head = re.sub(r"^#+\s*", "", head)
-        head = re.sub(r"^(C\d\d\s*/\s*)?[A-Z]\s*[-:–—]+\s*", "", head)
+        head = re.sub(r"^(C\d\d\s*/\s*)?[A-Z]{1,2}\s*[-:–—]+\s*", "", head)
         mc = re.search(r"Change[^:\n]*:\s*(.+?)(?:\n\s*\n|\Z)", notes, re.S)
         chg = " ".join(mc.group(1).split())[:400] if mc else ""
         mm = re.search(r"Needs?[^:\n]*:\s*(.+?)(?:\n\s*\n|\n#|\Z)", notes, re.S | re.I)
